@@ -606,6 +606,15 @@ class ReferenceProperty(Property):
         has_custom = not is_object(obj_type, self.spec_version) \
             or obj_type.startswith("x-")
 
+        if auth_type != self.auth_type:
+            # The whitelist was inverted above.  A type which gets through
+            # only because of that (it is registered, but in none of the
+            # allowed categories) is accepted as a customization.
+            has_custom = has_custom or not (
+                is_stix_type(obj_type, self.spec_version, *self.generics)
+                or obj_type in self.specifics
+            )
+
         if not type_ok:
             types = self.specifics.union(self.generics)
             types = ", ".join(x.name if isinstance(x, STIXTypeClass) else x for x in types)
